@@ -812,9 +812,31 @@ class FnCtx:
         for ins in blk['instrs']:
             if ins['op'] == 'Phi' and ins.get('comment') in ('rangeindex',):
                 env['$i'] = mathint(st.regs[ins['name']].term + 1)
+                rv = self.range_operand(st, fr, h, ins['name'])
+                if rv is not None:
+                    env['$range'] = rv
             if ins['op'] == 'Phi' and ins.get('comment') in ('rangeint.iter',):
                 env['$i'] = mathint(st.regs[ins['name']].term)
         return env
+
+    def range_operand(self, st, fr, h, phi):
+        """$range: the slice (or array pointer) a range loop iterates over, when it is
+        evaluated before the loop"""
+        body = fr.cfg.loops[h]
+        inc = None
+        for bi in [h] + sorted(body):
+            for ins in fr.cfg.blocks[bi]['instrs']:
+                if ins['op'] == 'BinOp' and ins.get('bop') == '+' and ins['x'].get('name') == phi:
+                    inc = ins['name']
+                if inc and ins['op'] in ('IndexAddr', 'Index') and ins['index'].get('name') == inc:
+                    x = ins['x']
+                    if self.instrs.defined_outside(fr, x, body):
+                        try:
+                            return self.instrs.operand(st, fr, x)
+                        except Exception:
+                            return None
+                    return None
+        return None
 
     def inv_formula(self, st, fr, ev, c, h):
         ev2 = ev.sub(env=dict(ev.env, **self.loop_env(st, fr, h)))
